@@ -9,6 +9,10 @@ hash algorithms / message lengths in the alphabet differ on purpose: anything th
 (a cached mask function, digest size, context, nonce) shows as a difference.
 
 Randomised schemes get a stateless entropy source (the same octets at every request), so they are deterministic too.
+
+Depth: quick 3; thorough 5 for the scheme objects of DEPTH5 (the cheapest calls of each family: 66429 histories each), 4 for the
+others (7380 histories each).  The thorough tier also adds scheme objects: RSA-2048 and a generated 1029-bit key, PSS with the
+longest salt, every DSA domain and NIST curve in four (mode, encoding) combinations, EdDSA with a 255-octet context.
 """
 import itertools
 
@@ -49,7 +53,7 @@ def schemes(quick):
         out["pkcs1_15/rsa2048"] = (lambda: pkcs1_15.new(RSA.libkey(rk3)), hin(("sha512", "md5", "sha3_384")))
         out["pss-default/rsa2048"] = (lambda: pss.new(RSA.libkey(rk3), rand_func=_const_rand), hin(("sha512", "sha1", "sha3_224")))
         out["pkcs1_15/rsa1029"] = (lambda: pkcs1_15.new(RSA.libkey(rk4)), hin(hs))
-        out["pss-salt94/rsa1029"] = (lambda: pss.new(RSA.libkey(rk4), salt_bytes=63, rand_func=_const_rand),
+        out["pss-salt63/rsa1029"] = (lambda: pss.new(RSA.libkey(rk4), salt_bytes=63, rand_func=_const_rand),
                                      hin(("sha512", "sha224", "sha3_256")))
     for kn in ("p256", "dsa1024_160") if quick else ("p256", "p521", "p224", "dsa1024_160", "dsa2048_256",
                                                      "p192", "p384", "dsa2048_224", "dsa3072_256"):
@@ -76,7 +80,7 @@ def schemes(quick):
 # thorough tier: scheme objects whose histories are explored one call deeper (the cheapest calls of each family)
 DEPTH5 = ("pkcs1_15/rsa1024", "pss-default/rsa1024", "pss-salt0/rsa1025", "pss-mgf1sha1/rsa1024",
           "dss-rfc6979/dsa1024_160", "dss-rfc6979-der/dsa1024_160", "dss-fips/dsa1024_160", "dss-fips-der/dsa1024_160",
-          "dss-rfc6979/p256", "dss-fips/p256", "eddsa-pure/ed25519", "eddsa-ctx/ed25519", "eddsa-prehash/ed25519")
+          "eddsa-pure/ed25519")
 
 
 def depth_of(name, quick):
@@ -162,8 +166,8 @@ def worker(shards):
 
 
 # measured cost of one call (ms, mixed sign / verify); thorough tier only (balancing the shards)
-CALL_MS = {"rsa1024": 0.6, "rsa1025": 0.5, "rsa1029": 0.6, "rsa2048": 1.6, "dsa1024_160": 0.45, "dsa2048_224": 1.1, "dsa2048_256": 1.2,
-           "dsa3072_256": 2.6, "p192": 1.3, "p224": 1.6, "p256": 1.2, "p384": 3.4, "p521": 5.4, "ed25519": 1.3, "ed448": 3.8}
+CALL_MS = {"rsa1024": 0.6, "rsa1025": 0.5, "rsa1029": 0.5, "rsa2048": 1.4, "dsa1024_160": 0.45, "dsa2048_224": 1.0, "dsa2048_256": 1.2,
+           "dsa3072_256": 1.8, "p192": 1.9, "p224": 1.7, "p256": 1.2, "p384": 2.4, "p521": 5.3, "ed25519": 1.3, "ed448": 3.8}
 
 
 def plan(quick):
